@@ -75,7 +75,7 @@ impl Disassembler {
 
             breakpoints
                 .iter()
-                .filter(|brkpt| brkpt.addr >= fn_reloc_pc_start && brkpt.addr <= fn_reloc_pc_end)
+                .filter(|brkpt| brkpt.addr >= fn_reloc_pc_start && brkpt.addr < fn_reloc_pc_end)
                 .for_each(|brkpt| {
                     let byte_idx = usize::from(brkpt.addr) - usize::from(fn_reloc_pc_start);
                     text[byte_idx] = brkpt.saved_data.get();
